@@ -19,7 +19,8 @@
                     observed state is the model state minus the pipelined pods, and the rank
                     of theorem C15_rank_decreases strictly decreased across the cycle; and no
                     evicted pod is bound again by the next cycle's allocate before the pod it was
-                    evicted for ([order_consistent], theorem C15_shared_order_evicted_pod_not_rebound).
+                    evicted for, after a cycle with ONE eviction - the setting of the theorem
+                    ([order_consistent], theorem C15_shared_order_evicted_pod_not_rebound).
     This is exploration (bounded runs); the theorems of Properties/C15.v cover all runs. *)
 From KaiV Require Export Run.Prelude Model.ClosedSystem.
 Open Scope Z_scope.
@@ -183,11 +184,19 @@ Definition rebound_before (evs : list (nat * positive * positive)) (binds : list
            | Some iv => match index_of j binds with None => true | Some ij => Nat.ltb iv ij end
            end
     end) evs.
-Fixpoint order_consistent (prev : list (nat * positive * positive)) (cs : list ccycle) : bool :=
+(** [all] = false: the statement of the theorem - it speaks of a cycle with ONE evicting decision ([ordered_system]:
+    allocate, then at most one simulated reclaim, one victim): when the previous cycle committed several evictions
+    (e.g. a reclaim and then a preemption for another job), the later ones changed the state the earlier simulation was
+    made for and the theorem says nothing; [all] = true: the same test after every cycle (observation flag 121). *)
+Fixpoint order_consistent_gen (all : bool) (prev : list (nat * positive * positive)) (cs : list ccycle) : bool :=
   match cs with
   | [] => true
-  | c :: r => negb (rebound_before prev (cy_binds c)) && order_consistent (cy_evs c) r
+  | c :: r =>
+      negb (rebound_before (if all then prev else match prev with [e] => [e] | _ => [] end) (cy_binds c))
+      && order_consistent_gen all (cy_evs c) r
   end.
+Definition order_consistent := order_consistent_gen false.
+Definition order_consistent_all := order_consistent_gen true.
 
 Definition model_agrees (k : case) : bool :=
   match k_stream k with
@@ -201,9 +210,13 @@ Definition model_agrees (k : case) : bool :=
 (** observation flag 120 (hierarchical stream): the next allocate bound an evicted pod although the pod
     it was evicted for was not bound before it (the simulation and the allocate action did not see the same
     order).  Outside the class this is not a statement of a theorem; a lasso is what the monitor reports. *)
+(** observation flag 121 (class stream): the same after a cycle that committed SEVERAL evictions (outside the
+    hypotheses of the theorem, see [order_consistent_gen]). *)
 Definition case_flags (k : case) : list nat :=
   match k_stream k with
-  | 2%nat => if order_consistent [] (k_cycles k) then [] else [120%nat]
+  | 2%nat => if order_consistent_all [] (k_cycles k) then [] else [120%nat]
+  | O => if order_consistent_all [] (k_cycles k) then [] else
+           if order_consistent [] (k_cycles k) then [121%nat] else []
   | _ => []
   end.
 Definition run_flags (cs : list (nat * case)) : list (nat * list nat) :=
